@@ -332,6 +332,24 @@ Theorem C06_wrapper_full_is_error : forall c0 c1 s0 s1 batch,
 Proof. exact wrapper_full_fresh. Qed.
 Print Assumptions C06_wrapper_full_is_error.
 
+(** *** Backend faults.  The only error-returning backend calls inside the cache are the mask upload in StartForward and,
+    in Remove's shift, the upload of the offsets and the model's shift function ([start_forward_fault], [remove_fault]:
+    the state the code leaves - nothing is rolled back).  After the recovery the code base itself uses for a partly performed
+    StartForward (WrapperCache: Remove(seq_k, pos_k, MaxInt32) for every batch entry), resp. the clearing that kvcache/cache.go
+    prescribes after a failed Remove, the cache satisfies the invariant again and holds exactly the specified entries - so by
+    [C06_visible_exact] every later visible history is exact. *)
+Theorem C06_fault_forward_recovers : forall c s batch c', Inv c -> R c s -> valid_batch batch ->
+  start_forward_fault true c batch = (c', OErr EBackend) ->
+  Inv (unwind c' batch) /\ R (unwind c' batch) (spec_unwind (fst (Spec.spec_forward s batch)) batch).
+Proof. exact fault_forward_recovers. Qed.
+Print Assumptions C06_fault_forward_recovers.
+
+Theorem C06_fault_remove_recovers : forall c s q b e c', Inv c -> R c s -> 0 <= b <= e ->
+  remove_fault c q b e = (c', OErr EBackend) ->
+  snd (remove c' q 0 MaxInt32) = OOk /\ Inv (fst (remove c' q 0 MaxInt32)) /\ R (fst (remove c' q 0 MaxInt32)) (sclear s q).
+Proof. exact fault_remove_recovers. Qed.
+Print Assumptions C06_fault_remove_recovers.
+
 (** *** EncoderCache (kvcache/encoder.go, with fixes/C06-encoder-shift.patch).  Its one entry (the K/V of the most recent
     image, per cross-attention layer) is exposed - EncoderCached() true and Get returning it - exactly as long as the
     position it was stored for is part of the sequence; positions are followed through the shifts of Remove.  Histories:
